@@ -113,7 +113,13 @@ func (w *World) Step(o HistOpts) string {
 		if o.BiasUnique && r.P(0.4) {
 			w.aimAtUnique(x)
 		}
-		out := w.Insert(x)
+		how := "new"
+		if r.P(0.07) {
+			// an identifier chosen by the caller (a uuid in any letter case), never stored before
+			x.Initialize(w.absentUUID())
+			how = "new-with-own-id"
+		}
+		out := w.Put(x, how)
 		w.abs("ins>" + out.Class)
 	case "upd":
 		u := pick(r, live)
